@@ -107,7 +107,7 @@ def main():
         sh(f"git -C {ROOT} checkout -- evidence")
         # … and the generated Lean files were regenerated from the CHANGED tree: regenerate them from the restored one
         sh(f"cd {ROOT} && .build/factgen -repo {SEED_REPO} -lean lean/Gws/Generated/Facts.lean -json .build/facts.json")
-        sh(f"cd {ROOT} && .build/gotrans -repo {SEED_REPO} -lean lean/Gws/Generated/Trans.lean -deque lean/Gws/Generated/TransDeque.lean")
+        sh(f"cd {ROOT} && .build/gotrans -repo {SEED_REPO} -lean lean/Gws/Generated/Trans.lean -deque lean/Gws/Generated/TransDeque.lean -fw lean/Gws/Generated/TransFW.lean")
     code, o = sh(f"git -C {SEED_REPO} status --porcelain")
     assert o.strip() == "", SEED_REPO + " not clean after undo:\n" + o
     fcntl.flock(lock, fcntl.LOCK_UN)
